@@ -131,6 +131,8 @@ type c26TypeState struct {
 	listPlan  []string
 	watchPlan []c26WatchPlan
 	watcher   *c26Watcher // most recent successfully created watcher that is still running
+	// listAlwaysErr: the datastore has gone away for good (early-stop ending).
+	listAlwaysErr bool
 	// bookkeeping for the oracle / evidence
 	listsCompleted   int
 	listCalls        int
@@ -154,11 +156,7 @@ func (s *c26Store) bumpLocked() {
 	s.changed = make(chan struct{})
 }
 
-var c26DbgT0 = time.Now()
-
-func (s *c26Store) logf(f string, a ...any) {
-	s.log = append(s.log, fmt.Sprintf("%v ", time.Since(c26DbgT0))+fmt.Sprintf(f, a...))
-}
+func (s *c26Store) logf(f string, a ...any) { s.log = append(s.log, fmt.Sprintf(f, a...)) }
 
 func c26Key(kind, name string) model.ResourceKey {
 	k := model.ResourceKey{Kind: kind, Name: name}
@@ -216,6 +214,9 @@ func (s *c26Store) List(ctx context.Context, list model.ListInterface, revision 
 	}
 	if outcome == c26ListEmptyNoRev && len(ts.objs) > 0 {
 		outcome = c26ListOK
+	}
+	if ts.listAlwaysErr {
+		outcome = c26ListErr
 	}
 	s.logf("List(%s, rev=%s) -> %s", kind, revision, outcome)
 	defer s.bumpLocked()
@@ -525,7 +526,7 @@ func (r *c26Recorder) OnStatusUpdated(st api.SyncStatus) {
 	r.store.mu.Unlock()
 	r.mu.Lock()
 	defer r.mu.Unlock()
-	r.seq = append(r.seq, fmt.Sprintf("%v ", time.Since(c26DbgT0))+"status:"+st.String())
+	r.seq = append(r.seq, "status:"+st.String())
 	r.status = st
 	r.haveStatus = true
 	switch st {
@@ -713,10 +714,6 @@ func TestVerifC26WatcherSyncer(t *testing.T) {
 	}()
 
 	rapid.Check(t, func(t *rapid.T) {
-		c26T0 := time.Now()
-		defer func() {
-			fmt.Fprintf(os.Stderr, "C26TIMING %v\n", time.Since(c26T0))
-		}()
 		nTypes := rapid.IntRange(1, 3).Draw(t, "numTypes")
 		kinds := c26Kinds[:nTypes]
 		store := &c26Store{types: map[string]*c26TypeState{}, changed: make(chan struct{}), rev: rapid.IntRange(1, 50).Draw(t, "initialRevision")}
@@ -901,9 +898,7 @@ func TestVerifC26WatcherSyncer(t *testing.T) {
 			for _, k := range kinds {
 				ts := store.types[k]
 				ts.listPlan = nil
-				for j := 0; j < 100000; j++ {
-					ts.listPlan = append(ts.listPlan, c26ListErr)
-				}
+				ts.listAlwaysErr = true
 				ts.watchPlan = []c26WatchPlan{{Outcome: c26WatchExpired}}
 				if w := ts.watcher; w != nil && !w.ended {
 					w.killNow = c26EndExpiredEvent
@@ -912,16 +907,10 @@ func TestVerifC26WatcherSyncer(t *testing.T) {
 			store.bumpLocked()
 			store.mu.Unlock()
 			c.steps = append(c.steps, "datastore gone: every List fails from now on; wait for WaitForDatastore, then Stop")
-			fmt.Fprintf(os.Stderr, "C26TIMING earlystop delay=%v at %v\n", cbs.delay, time.Since(c26DbgT0))
 			c.waitRec("WaitForDatastore reported after the datastore went away", func() bool {
 				return cbs.waitCount > waitsBefore && cbs.status == api.WaitForDatastore
 			})
-			c26T1 := time.Now()
 			stop()
-			fmt.Fprintf(os.Stderr, "C26TIMING waitdone=%v stop=%v\n", c26T1.Sub(c26T0), time.Since(c26T1))
-			if time.Since(c26T0) > time.Second {
-				fmt.Fprintf(os.Stderr, "C26SLOW %s\n", c.dump())
-			}
 			c.checkViolations()
 			rec.SizedCase(false, "early-stop", len(ops), nil, "stopped-while-waiting-for-datastore")
 			return
